@@ -516,7 +516,7 @@ package internal
 //@   property C07 C19
 //@   requires reqURL != nil                                                          # name: url-non-nil
 //@   requires allRefsNonNil(refs)                                                    # name: refs-non-nil
-//@   assigns storeWrites, deletedKeys, indexRead
+//@   assigns storeWrites, deletedKeys, indexRead, lastResolved
 //@   ensures deletedKeys[key]                                                        # name: index-deleted
 //@   ensures forall i int :: 0 <= i && i < len(refs) ==> deletedKeys[refs[i].ResponseID]     # name: every-variant-deleted
 //@   ensures forall x string :: old(deletedKeys)[x] ==> deletedKeys[x]               # name: deletions-accumulate
@@ -786,7 +786,7 @@ package internal
 //@   property C07
 //@   nosafety
 //@   requires r != nil && r.cache != nil && r.cke != nil && reqURL != nil && deleteFn != nil
-//@   assigns storeWrites, deletedKeys, indexRead
+//@   assigns storeWrites, deletedKeys, indexRead, lastResolved
 //@   ensures forall x string :: old(deletedKeys)[x] ==> deletedKeys[x]                                     # name: deletions-accumulate
 //@   loop 0 invariant forall x string :: old(deletedKeys)[x] ==> deletedKeys[x]
 //@   rangefunc 0 invariant forall x string :: old(deletedKeys)[x] ==> deletedKeys[x]
